@@ -226,6 +226,102 @@ Definition rdm2_pair (ks : list ksite) (i j : nat) : list R :=
 Definition rdm2_all (ks : list ksite) : list R :=
   flat_map (fun i => flat_map (fun j => rdm2_pair ks i j) (seq (S i) (length ks - S i))) (seq 0 (length ks)).
 
+(* ---- the ms.ndim == 4 branches of calc_1site_rdm / calc_2site_rdm (MpDm / purified states): the ancilla index
+   of conj(ms) and ms is contracted together with the bonds.  A ket site is (phys dim, ancilla dim, right bond, tensor). *)
+Definition ksite4 := (nat * nat * nat * T4 R)%type.
+Definition cj4 (t : T4 R) : T4 R := fun l p q r => rcj R (t l p q r).
+Definition self_site4 (x : ksite4) : site4 :=
+  let '(p, q, d, t) := x in mk4 p q d 1 d (cj4 t) id_op t.
+Definition self_sand4 (ks : list ksite4) : list site4 := map self_site4 ks.
+
+(* tensor[x',x] = sum ltensor[a,c] conj(t)[a,x',l,r'] rtensor[r',r] t[c,x,l,r];  rdm = tensor.T *)
+Definition rdm1_4g (L Rt : E3) (dl q d : nat) (t : T4 R) : nat -> nat -> R :=
+  fun x y =>
+    sumn d (fun r' => sumn d (fun r => sumn dl (fun a => sumn dl (fun c => sumn q (fun l =>
+      L a 0%nat c * rcj R (t a y l r') * t c x l r * Rt r' 0%nat r))))).
+Definition rdm1_4 (left : list ksite4) (dl p q d : nat) (t : T4 R) (right : list ksite4) : nat -> nat -> R :=
+  rdm1_4g (envL4 1 1 1 sentinel (self_sand4 left)) (envR4 (self_sand4 right) sentinel) dl q d t.
+Definition rdm1t_4 (left : list ksite4) (dl p q d : nat) (t : T4 R) (right : list ksite4) : nat -> nat -> R :=
+  let L := envL4t 1 1 1 sentinel (self_sand4 left) in
+  let Rt := envR4t d 1 d (self_sand4 right) sentinel in
+  rdm1_4g L Rt dl q d t.
+
+Definition lcomp4 (dl : nat) (L : nat -> nat -> R) (q : nat) (t : T4 R) (x' x : nat) : nat -> nat -> R :=
+  fun r' r => sumn dl (fun a => sumn dl (fun c => sumn q (fun l => L a c * rcj R (t a x' l r') * t c x l r))).
+Definition transfer4 (dprev : nat) (T : nat -> nat -> R) (k : ksite4) : nat -> nat -> R :=
+  let '(p, q, d, t) := k in
+  fun l' l => sumn dprev (fun m' => sumn dprev (fun m => sumn p (fun s => sumn q (fun anc =>
+    T m' m * rcj R (t m' s anc l') * t m s anc l)))).
+Definition rdim4 (k : ksite4) : nat := snd (fst k).
+Fixpoint transfers4 (dprev : nat) (T : nat -> nat -> R) (mid : list ksite4) : nat -> nat -> R :=
+  match mid with [] => T | k :: r => transfers4 (rdim4 k) (transfer4 dprev T k) r end.
+Fixpoint transfers4_t (dprev : nat) (T : nat -> nat -> R) (mid : list ksite4) : nat -> nat -> R :=
+  match mid with [] => T | k :: r => transfers4_t (rdim4 k) (tab2 (rdim4 k) (rdim4 k) (transfer4 dprev T k)) r end.
+Definition rcomp4 (d : nat) (Rt : nat -> nat -> R) (q : nat) (t : T4 R) (q' qq : nat) : nat -> nat -> R :=
+  fun l' l => sumn d (fun r' => sumn d (fun r => sumn q (fun anc => rcj R (t l' q' anc r') * Rt r' r * t l qq anc r))).
+Definition rdm2_4 (left : list ksite4) (dl : nat) (p1 q1 d1 : nat) (t1 : T4 R) (mid : list ksite4) (dm : nat)
+                  (p2 q2 d2 : nat) (t2 : T4 R) (right : list ksite4) (x1 x2 y1 y2 : nat) : R :=
+  let L := envL4 1 1 1 sentinel (self_sand4 left) in
+  let Rt := envR4 (self_sand4 right) sentinel in
+  let T := transfers4 d1 (lcomp4 dl (fun a c => L a 0%nat c) q1 t1 y1 x1) mid in
+  let Rc := rcomp4 d2 (fun r' r => Rt r' 0%nat r) q2 t2 y2 x2 in
+  sumn dm (fun l' => sumn dm (fun l => T l' l * Rc l' l)).
+Definition rdm2t_4 (left : list ksite4) (dl : nat) (p1 q1 d1 : nat) (t1 : T4 R) (mid : list ksite4) (dm : nat)
+                   (p2 q2 d2 : nat) (t2 : T4 R) (right : list ksite4) : nat -> nat -> nat -> nat -> R :=
+  let L := envL4t 1 1 1 sentinel (self_sand4 left) in
+  let Rt := envR4t d2 1 d2 (self_sand4 right) sentinel in
+  fun x1 x2 y1 y2 =>
+  let T := transfers4_t d1 (tab2 d1 d1 (lcomp4 dl (fun a c => L a 0%nat c) q1 t1 y1 x1)) mid in
+  let Rc := tab2 dm dm (rcomp4 d2 (fun r' r => Rt r' 0%nat r) q2 t2 y2 x2) in
+  sumn dm (fun l' => sumn dm (fun l => T l' l * Rc l' l)).
+Definition ldim_of4 (lft : list ksite4) (d0 : nat) : nat := fold_left (fun _ x => rdim4 x) lft d0.
+Definition rdm1_site4 (ks : list ksite4) (i : nat) : list R :=
+  match skipn i ks with
+  | [] => []
+  | (p, q, d, t) :: rgt =>
+      let f := rdm1t_4 (firstn i ks) (ldim_of4 (firstn i ks) 1%nat) p q d t rgt in
+      flat_map (fun x => map (fun y => f x y) (seq 0 p)) (seq 0 p)
+  end.
+Definition rdm1_all4 (ks : list ksite4) : list R := flat_map (rdm1_site4 ks) (seq 0 (length ks)).
+Definition rdm2_pair4 (ks : list ksite4) (i j : nat) : list R :=
+  match skipn i ks with
+  | (p1, q1, d1, t1) :: rest =>
+      match skipn (j - i - 1) rest with
+      | (p2, q2, d2, t2) :: rgt =>
+          let mid := firstn (j - i - 1) rest in
+          let lft := firstn i ks in
+          let f := rdm2t_4 lft (ldim_of4 lft 1%nat) p1 q1 d1 t1 mid (ldim_of4 mid d1) p2 q2 d2 t2 rgt in
+          flat_map (fun x1 => flat_map (fun x2 => flat_map (fun y1 => map (fun y2 => f x1 x2 y1 y2) (seq 0 p2)) (seq 0 p1)) (seq 0 p2)) (seq 0 p1)
+      | [] => []
+      end
+  | [] => []
+  end.
+Definition rdm2_all4 (ks : list ksite4) : list R :=
+  flat_map (fun i => flat_map (fun j => rdm2_pair4 ks i j) (seq (S i) (length ks - S i))) (seq 0 (length ks)).
+
+(* ---- occupations: observation helpers for the correspondence.
+   occ_dense ks k = sum_s s_k |Psi(s)|^2 (the dense value C07_occupation_dense gives for an operator whose dense matrix
+   is diag(s_k)); diag_probe lists the diagonal of an operator chain's dense matrix over all configurations (row-major)
+   followed by the squared norm of everything off the diagonal. *)
+Fixpoint nR (n : nat) : R := match n with O => 0 | S m => 1 + nR m end.
+Definition kchain_of (ks : list ksite) : list (nat * T3 R) := map (fun x => (snd (fst x), snd x)) ks.
+Definition occ_dense (ks : list ksite) (k : nat) : R :=
+  sumcfg (map (fun x => fst (fst x)) ks) (fun s =>
+    nR (nth k s 0%nat) * (rcj R (amp (kchain_of ks) s) * amp (kchain_of ks) s)).
+Definition all_cfgs (dims : list nat) : list (list nat) :=
+  fold_right (fun d acc => flat_map (fun a => map (cons a) acc) (seq 0 d)) [[]] dims.
+Fixpoint nat_list_eqb (a b : list nat) : bool :=
+  match a, b with
+  | [], [] => true
+  | x :: a', y :: b' => Nat.eqb x y && nat_list_eqb a' b'
+  | _, _ => false
+  end.
+Definition diag_probe (os : list (nat * T4 R)) (dims : list nat) : list R :=
+  let cs := all_cfgs dims in
+  map (fun s => opamp os s s) cs ++
+  [fold_right (fun s' acc => fold_right (fun s acc2 =>
+      if nat_list_eqb s' s then acc2 else opamp os s' s * rcj R (opamp os s' s) + acc2) acc cs) 0 cs].
+
 (* calc_edof_rdm: Hermitian completion of the upper triangle obtained from `expectations`:
    the values arrive in the order (0,0),(0,1),...,(0,n-1),(1,1),...; rdm[i,j] = e, rdm[j,i] = conj e for i <= j *)
 Definition tri_index (n i j : nat) : nat := i * n - (i * (i - 1)) / 2 - i + j.   (* position of (i,j), i<=j, in the popleft order *)
@@ -254,6 +350,10 @@ Arguments bras3 {R}. Arguments ops3 {R}. Arguments kets3 {R}. Arguments bras4 {R
 Arguments zip3 {R}. Arguments zip4 {R}.
 Arguments cj3 {R}. Arguments id_op {R}. Arguments self_site {R}. Arguments self_sand {R}.
 Arguments lcomp {R}. Arguments transfer {R}. Arguments transfers {R}. Arguments rcomp {R}. Arguments rdm2 {R}. Arguments tab2 {R}. Arguments transfers_t {R}. Arguments rdm2t {R}. Arguments rdm2_pair {R}. Arguments rdm2_all {R}.
+Arguments cj4 {R}. Arguments self_site4 {R}. Arguments self_sand4 {R}. Arguments rdm1_4g {R}. Arguments rdm1_4 {R}. Arguments rdm1t_4 {R}.
+Arguments lcomp4 {R}. Arguments transfer4 {R}. Arguments rdim4 {R}. Arguments transfers4 {R}. Arguments transfers4_t {R}. Arguments rcomp4 {R}. Arguments rdm2_4 {R}. Arguments rdm2t_4 {R}.
+Arguments ldim_of4 {R}. Arguments rdm1_site4 {R}. Arguments rdm1_all4 {R}. Arguments rdm2_pair4 {R}. Arguments rdm2_all4 {R}.
+Arguments nR {R}. Arguments kchain_of {R}. Arguments occ_dense {R}. Arguments diag_probe {R}.
 Arguments rdm1 {R}. Arguments edof_rdm {R}. Arguments rdm1t {R}. Arguments ldim_of {R}. Arguments rdm1_site {R}. Arguments rdm1_all {R}. Arguments tri_index n i j : assert.
 
 (* ------------------------------------------------------------------ Mps.expectations(opt=True), instantiated *)
@@ -318,3 +418,35 @@ Definition env_dump (e : EnvD) : list nat * list R :=
 Definition dict_dump (d : domain) (nmps : nat) (ms : list (hop OpSite)) : list (list nat * list R) :=
   match dict_of d nmps ms with Some res => map (fun kv => env_dump (snd kv)) (tl res) | None => [] end.
 End FastInst.
+
+(* ------------------------------------------------------------------ the same for MpDm (rank-4 state sites) *)
+Section FastInst4.
+Variable R : CRing.
+Variables ps qs : list nat.                   (* physical and ancilla dimensions *)
+Variables bra ket : list (nat * T4 R).        (* self_conj (as passed) and self *)
+
+Definition zero4 : T4 R := fun _ _ _ _ => r0 R.
+Definition rdimc4 (c : list (nat * T4 R)) (i : nat) : nat := fst (nth i c (1, zero4)).
+Definition ldimc4 (c : list (nat * T4 R)) (i : nat) : nat := match i with 0 => 1 | S j => rdimc4 c j end.
+Definition tensc4 (c : list (nat * T4 R)) (i : nat) : T4 R := snd (nth i c (1, zero4)).
+
+Definition site_at4 (i : nat) (o : OpSite R) : site4 R :=
+  mk4 (nth i ps 0) (nth i qs 0) (rdimc4 bra i) (snd (fst o)) (rdimc4 ket i) (tensc4 bra i) (snd o) (tensc4 ket i).
+
+Definition env_stepo4 (d : domain) (i : nat) (o : OpSite R) (e : EnvD R) : EnvD R :=
+  let '(da, db, dc, T) := e in
+  let s := site_at4 i o in
+  match d with
+  | DL => (a4 s, b4 s, c4 s, retab (a4 s) (b4 s) (c4 s) (stepL4 da db dc T s))
+  | DR => (ldimc4 bra i, fst (fst o), ldimc4 ket i, retab (ldimc4 bra i) (fst (fst o)) (ldimc4 ket i) (stepR4 s T))
+  end.
+
+Definition expectations_fast4 (nmps : nat) (ms : list (hop (OpSite R))) : option (list R) :=
+  expectations_fast (EnvD R) (OpSite R) R env_stepo4 (env_init R) (op_dflt R) (env_dot R) nmps ms.
+
+Fixpoint sites_from4 (i : nat) (objs : list (OpSite R)) : list (site4 R) :=
+  match objs with [] => [] | o :: r => site_at4 i o :: sites_from4 (S i) r end.
+
+Definition expectations_slow4 (ms : list (hop (OpSite R))) : list R :=
+  map (fun m => expectation4t (sites_from4 0 (map snd m))) ms.
+End FastInst4.
